@@ -29,7 +29,7 @@ def must_raise(fn, what, exc=Exception):
     except exc:
         return
     except Exception as e:
-        raise Failure(f'{what}: raised {type(e).__name__} (expected {exc.__name__}): {e}')
+        raise Failure(f'{what}: raised {type(e).__name__} (expected {getattr(exc, "__name__", exc)}): {e}')
     raise Failure(f'{what}: returned {v!r} instead of raising')
 
 
